@@ -16,7 +16,7 @@ notes = json.load(open('/verif/tools/seed_notes%s.json' % rnd)).get(pid, {})
 viol = [l.strip() for l in log.splitlines() if l.startswith('  ') and 'VIOLATION' not in l][:2]
 meta = {
     'property': pid,
-    'origin': 'written by an independent sub-agent that was given only the property text and a scratch worktree of /repo (HEAD at the time: a26d963 for rounds 1-3, 07a1cdf for rounds 4-5)',
+    'origin': 'written by an independent sub-agent that was given only the property text and a scratch worktree of /repo (HEAD at the time: a26d963 for rounds 1-3, 07a1cdf for rounds 4-6)',
     'what_the_change_is': notes.get('what'),
     'needs_to_manifest': notes.get('needs'),
     'confirmed_by_me_in_a_scratch_worktree': {
